@@ -938,25 +938,9 @@ fn restrict(m: &typegen::Module, keep_insts: &[usize]) -> Option<typegen::Module
     loop {
         let before = need.len();
         for i in need.clone() {
-            let td = &m.types[i];
-            for f in td.all_fields() {
-                refs_of(&f.ty, &mut need);
-            }
-            // fields of skipped variants are still rendered
-            if let typegen::Body::Enum(vs) = &td.body {
-                for v in vs {
-                    match &v.body {
-                        typegen::VBody::Newtype(f) => refs_of(&f.ty, &mut need),
-                        typegen::VBody::Tuple(fs) | typegen::VBody::Named(fs) => fs.iter().for_each(|f| refs_of(&f.ty, &mut need)),
-                        _ => (),
-                    }
-                }
-            }
-            for p in &td.params {
-                if let Some(d) = &p.default {
-                    refs_of(d, &mut need);
-                }
-            }
+            // (all_fields_mut also yields the fields of skipped variants, which are still rendered)
+            let mut td = m.types[i].clone();
+            td.for_each_ty_mut(&mut |t| refs_of(t, &mut need));
         }
         if need.len() == before {
             break;
@@ -966,17 +950,10 @@ fn restrict(m: &typegen::Module, keep_insts: &[usize]) -> Option<typegen::Module
     let mut out = typegen::Module { name: m.name.clone(), types: vec![], insts: vec![], serde: m.serde, extra_roots: m.extra_roots.clone(), without_ts_derive: m.without_ts_derive };
     for o in &need {
         let mut td = m.types[*o].clone();
-        for f in td.all_fields_mut() {
-            if !remap_ty(&mut f.ty, &map) {
-                return None;
-            }
-        }
-        for p in td.params.iter_mut() {
-            if let Some(d) = &mut p.default {
-                if !remap_ty(d, &map) {
-                    return None;
-                }
-            }
+        let mut ok = true;
+        td.for_each_ty_mut(&mut |t| ok &= remap_ty(t, &map));
+        if !ok {
+            return None;
         }
         out.types.push(td);
     }
